@@ -18,12 +18,30 @@ def coords_of(name, sizes):
     return [list(c) for c in itertools.product(*[range(s) for s in sizes])]
 
 
+PAIRS = [('strided.2.u64/array.1.f32', 'morton.2.u64.p/array.1.f32'), ('strided.2.u64/array.2.f32', 'morton.2.u64.b/array.2.f32')]
+
+
+def pair_ops(tname):
+    """alphabet for the exhaustive histories over two pools (slots 0,1 of the first type, 2,3 of the second): non-cubic extents"""
+    n, m, tv = shape_info(tname.split('+')[0])
+    sz0, sz1 = [3, 2], [1, 3]
+    d0 = [sc.fbits(tv, float(i + 1)) for i in range(6 * m)]
+    d1 = [sc.fbits(tv, float(10 * (i + 1))) for i in range(3 * m)]
+    w = [sc.fbits(tv, 99.5)] * m
+    return [('C', 0, sz0, d0), ('C', 2, sz1, d1), ('W', 0, 5, w), ('W', 2, 2, w), ('W', 3, 4, w), ('W', 1, 1, w), ('V', 2, 0), ('V', 3, 0), ('V', 0, 2), ('V', 1, 2), ('V', 1, 3),
+            ('K', 1, 0), ('K', 3, 2), ('A', 0, 1), ('A', 2, 3), ('A', 3, 2), ('L', 3, 2), ('L', 1, 0), ('M', 3, 2), ('B', 2, 3), ('D', 0), ('D', 2)]
+
+
 class Mirror:
     """value semantics, mirrored in python only to GENERATE in-contract histories and to know which slots may be read;
     the Coq model (both levels) is what the implementation is compared with"""
 
-    def __init__(self, n):
+    def __init__(self, n, per_pool=None):
         self.s = [None] * n        # None | ('F', sizes, data) | ('H', sizes)
+        self.per_pool = per_pool or n
+
+    def pool(self, g):
+        return g // self.per_pool
 
     def ok(self, op):
         k = op[0]
@@ -32,6 +50,10 @@ class Mirror:
             return s[op[1]] is None
         if k == 'W':
             return s[op[1]] is not None and s[op[1]][0] == 'F' and op[2] < len(coords_of(self.name, s[op[1]][1]))
+        if k == 'V':   # layout conversion: construct a field of the OTHER type from a field
+            return self.pool(op[1]) != self.pool(op[2]) and s[op[1]] is None and s[op[2]] is not None and s[op[2]][0] == 'F'
+        if k in ('K', 'M', 'L', 'A', 'B') and self.pool(op[1]) != self.pool(op[2]):
+            return False
         if k in ('K', 'M', 'L'):
             return s[op[1]] is None and s[op[2]] is not None and (k == 'M' or s[op[2]][0] == 'F')
         if k in ('A', 'B'):
@@ -51,7 +73,7 @@ class Mirror:
             m = len(op[3])
             d[op[2] * m:(op[2] + 1) * m] = op[3]
             s[op[1]] = ('F', t[1], d)
-        elif k in ('K', 'L'):
+        elif k in ('K', 'L', 'V'):
             s[op[1]] = s[op[2]]
         elif k == 'M':
             s[op[1]] = s[op[2]]
@@ -67,20 +89,31 @@ class Mirror:
             s[op[1]] = None
 
 
-def render(name, nslots, ops):
-    """(model line args, harness ops string, list per op of [(slot, coord, expected cell)])"""
-    n, m, tv = shape_info(name)
-    mir = Mirror(nslots)
-    mir.name = name
+def render(tname, nslots, ops):
+    """(model line args, harness ops string, list per op of [(slot, coord, expected cell)]); tname is one type, or 'A+B' for a
+    history over two pools of nslots/2 slots each (pool 0 of type A, pool 1 of type B) with layout conversions between them"""
+    tys = tname.split('+')
+    per = nslots // len(tys)
+    n, m, tv = shape_info(tys[0])
+    mir = Mirror(nslots, per)
+    mir.name = tys[0]
     mops, hops, reads = [], [], []
+
+    def on(g):
+        return f'on {tys[g // per]} ' if len(tys) > 1 else ''
+
+    def loc(g):
+        return g % per
+
     for op in ops:
         k = op[0]
+        name = tys[op[1] // per]
         if k == 'C':
             _, d, sizes, data = op
             mops.append(f'C {d} ' + ' '.join(map(str, data)))
             cs = coords_of(name, sizes)
             if name.startswith('array'):
-                hops.append(f'new {d} {sizes[0]} ' + ' '.join(map(str, data)))
+                hops.append(on(d) + f'new {loc(d)} {sizes[0]} ' + ' '.join(map(str, data)))
             else:
                 cap = 1
                 for s_ in sizes:
@@ -94,19 +127,23 @@ def render(name, nslots, ops):
                         pre += sizes
                     elif l[0] == 'clamp':
                         pre += [0] * kk.n + [s_ - 1 for s_ in sizes]
-                hops.append(f'new {d} ' + ' '.join(map(str, pre)) + f' {cap} ' + ' '.join(['0'] * (cap * m)))
+                hops.append(on(d) + f'new {loc(d)} ' + ' '.join(map(str, pre)) + f' {cap} ' + ' '.join(['0'] * (cap * m)))
                 for i, c in enumerate(cs):
-                    hops.append(f'wr {d} ' + ' '.join(map(str, c)) + ' ' + ' '.join(map(str, data[i * m:(i + 1) * m])))
+                    hops.append(on(d) + f'wr {loc(d)} ' + ' '.join(map(str, c)) + ' ' + ' '.join(map(str, data[i * m:(i + 1) * m])))
         elif k == 'W':
             _, s_, cell, vals = op
             for j, v in enumerate(vals):
                 mops.append(f'W {s_} {cell * m + j} {v}')
             c = coords_of(name, mir.s[s_][1])[cell]
-            hops.append(f'wr {s_} ' + ' '.join(map(str, c)) + ' ' + ' '.join(map(str, vals)))
+            hops.append(on(s_) + f'wr {loc(s_)} ' + ' '.join(map(str, c)) + ' ' + ' '.join(map(str, vals)))
+        elif k == 'V':
+            # construct the field in slot op[1] (other storage order) from the field in slot op[2]; value semantics: a copy
+            mops.append(f'K {op[1]} {op[2]}')
+            hops.append(f'on {tys[op[2] // per]} conv {tys[op[1] // per]} {loc(op[1])} {loc(op[2])}')
         else:
             code = {'K': 'copy', 'M': 'move', 'A': 'cassign', 'B': 'massign', 'D': 'del', 'L': 'reload'}[k]
             mops.append(' '.join(['K' if k == 'L' else k] + [str(x) for x in op[1:]]))
-            hops.append(code + ' ' + ' '.join(str(x) for x in op[1:]))
+            hops.append(on(op[1]) + code + ' ' + ' '.join(str(loc(x)) for x in op[1:]))
         mir.apply(op)
         rd = []
         for s_ in range(nslots):
@@ -114,9 +151,9 @@ def render(name, nslots, ops):
             if t is not None and t[0] == 'F':
                 for i, c in enumerate(coords_of(name, t[1])):
                     rd.append((s_, c, t[2][i * m:(i + 1) * m]))
-        hops.append('live ' + ' | live '.join(str(s_) for s_ in range(nslots)))
+        hops.append(' | '.join(on(s_) + f'live {loc(s_)}' for s_ in range(nslots)))
         for s_, c, _ in rd:
-            hops.append(f'at {s_} ' + ' '.join(map(str, c)))
+            hops.append(on(s_) + f'at {loc(s_)} ' + ' '.join(map(str, c)))
         reads.append((rd, [mir.s[s_] for s_ in range(nslots)], sum(1 for o in [op] if o[0] == 'W') * (m - 1)))
     return mops, hops, reads
 
@@ -132,9 +169,9 @@ def small_ops(name, r):
             ('A', 0, 0), ('A', 0, 1), ('A', 1, 0), ('A', 1, 1), ('B', 0, 0), ('B', 0, 1), ('B', 1, 0), ('B', 1, 1), ('D', 0), ('D', 1)]
 
 
-def valid(name, nslots, ops):
-    mir = Mirror(nslots)
-    mir.name = name
+def valid(name, nslots, ops, per=None):
+    mir = Mirror(nslots, per)
+    mir.name = name.split('+')[0]
     for op in ops:
         if not mir.ok(op):
             return False
@@ -142,18 +179,20 @@ def valid(name, nslots, ops):
     return True
 
 
-def random_history(name, r, nslots, length):
+def random_history(tname, r, nslots, length):
+    tys = tname.split('+')
+    name = tys[0]
     n, m, tv = shape_info(name)
-    mir = Mirror(nslots)
+    mir = Mirror(nslots, nslots // len(tys))
     mir.name = name
     ops = []
     tries = 0
     while len(ops) < length and tries < length * 40:
         tries += 1
-        k = r.choice(['C', 'W', 'W', 'K', 'L', 'M', 'A', 'A', 'B', 'D'])
+        k = r.choice(['C', 'W', 'W', 'K', 'L', 'M', 'A', 'A', 'B', 'D'] + (['V'] * 4 if len(tys) > 1 else []))
         a, b = r.below(nslots), r.below(nslots)
         if k == 'C':
-            sizes = [r.range(1, 4)] if (name.startswith('array') or n == 1) else [r.range(1, 3) for _ in range(n)]
+            sizes = [r.range(1, 4)] if (name.startswith('array') or n == 1) else [r.range(1, 3 if len(tys) == 1 else 6) for _ in range(n)]
             nc = len(coords_of(name, sizes))
             op = ('C', a, sizes, [sc.rand_scalar(r, tv, 'nice') for _ in range(nc * m)])
         elif k == 'W':
@@ -176,7 +215,8 @@ def run(replay=None):
     thorough = chk.tier == 'thorough'
     chk.cov['rule'] = (
         'operation histories over a pool of field slots of one type (array / row-major / Morton / Hilbert / clamp-over-row-major storage, 1..3 output components, float and double): construction from data, '
-        'writes through a view, copy and move construction, construction from a dump of another field, copy and move assignment INCLUDING self-assignment, destruction. EXHAUSTIVE: every in-contract history of length <= 3 over 2 slots '
+        'writes through a view, copy and move construction, construction from a dump of another field, copy and move assignment INCLUDING self-assignment, destruction; and histories over TWO pools of different storage order '
+        '(row-major and Morton, non-cubic extents) with LAYOUT CONVERSION between them (every in-contract history of length <= 3 that starts with a construction and contains a conversion, plus seeded random ones over 4+4 slots). EXHAUSTIVE: every in-contract history of length <= 3 over 2 slots '
         '(20 parametrised operations, a dump-and-reload construction among them; length <= 4 for the plain array type in the thorough tier) for each field type; seeded random histories of length 40 over 4 slots (longer in the thorough tier). After EVERY operation every live, non-moved-from field is read back at '
         'EVERY coordinate through a fresh view and compared with the run of the Coq ownership model (concrete level, which the theorem C12_history_refines proves equal to plain value semantics); the process runs under '
         'ASan + LeakSanitizer + UBSan in an assertion build and in -O2 -DNDEBUG, so a double free, use after free, leak or value-returning function that returns nothing is a failure. '
@@ -187,7 +227,9 @@ def run(replay=None):
         driver, dlog = core.build_driver('own')
     if not driver:
         chk.obligation_broken('extracted model (own) does not build', dlog)
-    runner = sc.StackRunner(chk, 'ow', TYPES, shard_size=3)
+    convs = [(a, b) for a, b in PAIRS] + [(b, a) for a, b in PAIRS]
+    alltypes = TYPES + [x for pr in PAIRS for x in pr if x not in TYPES]
+    runner = sc.StackRunner(chk, 'ow', alltypes, conversions=convs, shard_size=3)
     for s, log in runner.failed.items():
         chk.violation('stack does not compile: ' + '/'.join(l.split('.')[0] for l in s.split('/')), f'{s} is rejected by the compiler: {sc.first_error(log)}', {'stack': s, 'compiler_output': log[-3000:]})
     types = [t for t in TYPES if t not in runner.failed]
@@ -206,6 +248,17 @@ def run(replay=None):
                     hist.append((t, 2, list(seq)))
         for _ in range(12 if thorough else 4):
             hist.append((t, 4, random_history(t, r, 4, 120 if thorough else 40)))
+    for a, b in PAIRS:
+        if a in runner.failed or b in runner.failed:
+            continue
+        t = a + '+' + b
+        alpha = pair_ops(t)
+        for ln in range(1, 5 if thorough else 4):
+            for seq in itertools.product(alpha, repeat=ln):
+                if seq[0][0] == 'C' and valid(t, 4, seq, 2) and (ln < 3 or any(o[0] == 'V' for o in seq)):
+                    hist.append((t, 4, list(seq)))
+        for _ in range(12 if thorough else 4):
+            hist.append((t, 8, random_history(t, r, 8, 120 if thorough else 40)))
     if replay:
         rp = json.load(open(replay)).get('replay', {})
         if rp.get('cases'):
@@ -215,7 +268,7 @@ def run(replay=None):
     for i, (t, ns, ops) in enumerate(hist):
         mops, hops, reads = render(t, ns, ops)
         mlines.append(f'{i} hist {ns} ' + ' ; '.join(mops))
-        hlines.append(f'{i} {t} ' + ' | '.join(hops))
+        hlines.append(f'{i} {t.split("+")[0]} ' + ' | '.join(hops))
         allreads.append(reads)
     model = {}
     if driver:
@@ -245,8 +298,9 @@ def run(replay=None):
         impl[cfg] = ans
     for i, (t, ns, ops) in enumerate(hist):
         id_ = str(i)
-        n, m, tv = shape_info(t)
-        chk.count_case((t, json.dumps(ops)), any(o[0] in 'KMABL' for o in ops))
+        t0 = t.split('+')[0]
+        n, m, tv = shape_info(t0)
+        chk.count_case((t, json.dumps(ops)), any(o[0] in 'KMABLV' for o in ops))
         mo = model.get(id_)
         # model groups: one per model op; writes of M components produce M groups -> keep the last of each
         mg = mo.split(' | ') if mo else None
@@ -269,9 +323,13 @@ def run(replay=None):
             bad = None
             for oi, op in enumerate(ops):
                 rd, states, _ = allreads[i][oi]
-                nh = (1 + (len(coords_of(t, op[2])) if not t.startswith('array') else 0)) if op[0] == 'C' else 1
+                nh = (1 + (len(coords_of(t0, op[2])) if not t0.startswith('array') else 0)) if op[0] == 'C' else 1
                 seg = parts[pos:pos + nh + ns + len(rd)]
                 pos += nh + ns + len(rd)
+                if len(parts) == 1 and parts[0].startswith(('CRASH', 'TIMEOUT', 'MISSING')):
+                    # the process died: the harness prints nothing for the case, so the whole history is the replay
+                    bad = (len(ops) - 1, 'the process dies somewhere in this history: ' + parts[0][:300])
+                    break
                 if len(seg) < nh + ns + len(rd) or any(x.startswith(('CRASH', 'EXCEPTION', 'TIMEOUT', 'MISSING')) for x in seg):
                     bad = (oi, 'operation fails: ' + ' '.join(x for x in seg if not x.startswith(('V', 'OK', '0', '1')))[:300] + (a[:200] if not seg else ''))
                     break
@@ -289,7 +347,7 @@ def run(replay=None):
                         es = exp_states[oi][s_]
                         if es.startswith('F'):
                             md = es[1:].split(',')
-                            ci = coords_of(t, states[s_][1]).index(c)
+                            ci = coords_of(t0, states[s_][1]).index(c)
                             want_m = 'V ' + ' '.join(md[ci * m:(ci + 1) * m])
                             if want_m != want:
                                 chk.obligation_broken('python mirror and Coq model disagree', f'{t} {ops[:oi + 1]}: {want_m} vs {want}')
